@@ -142,7 +142,6 @@ func clipB(b []byte, n int) []byte {
 	return b
 }
 
-
 // nestedReadAndCompare: ReadNested (a second reader of the same file alive inside the first one's callback); the
 // outer reader's records are compared with the expected values (only for files all of whose datums fit the target).
 func nestedReadAndCompare(c *fw.Ctx, f fileCase, data []byte, t reflect.Type, locus string) {
